@@ -92,6 +92,10 @@ def events (udp bw : Bool) (ops : List (List String)) : List TEvent := Id.run do
       if udp && typ == "con" then evs := evs ++ [.insert (siteOf "messageCache.Store" "c") (50000 + n) (300000 + n) 247]
       if bw && (rlen.toNat?.getD 0) ≥ 16 then
         evs := evs ++ [.insert (siteOf "BlockWise.startSendingMessage" "sendingMessagesCache") (300000 + n) (300000 + n) 3]
+    | ["reqs", from_, count] =>
+      if udp then
+        for n in [from_.toNat?.getD 0 : (from_.toNat?.getD 0) + (count.toNat?.getD 0)] do
+          evs := evs ++ [.insert (siteOf "messageCache.Store" "c") (50000 + n) (300000 + n) 247]
     | ["up", n, _, _] =>
       let n := n.toNat?.getD 0
       if bw then evs := evs ++ [.insert (siteOf "BlockWise.getCachedReceivedMessage" "receivingMessagesCache") (400000 + n) (400000 + n) 3]
@@ -135,11 +139,21 @@ def judgeLine (line : String) : String :=
       | last :: restRev =>
         if !last.startsWith "final:" then "violates unparsable-observation" else
         let opNames := (words inp).drop 5 |>.map (fun op => (op.splitOn ":").headD "")
-        let ours := opNames.map (fun n => ["resp", "nb0", "blk2", "cont", "bad", "ack", "rst", "pong"].contains n)
+        let ours := opNames.map (fun n => ["resp", "nb0", "nblk", "blk2", "cont", "bad", "ack", "rst", "pong"].contains n)
         match parsePoint (last.drop 6).toString, restRev.reverse.mapM parsePoint with
         | some fin, some pts =>
           let pts3 := (pts.zip (ours ++ List.replicate pts.length false)).map (fun (p, o) => (p.1, p.2, o))
-          match Spec.Quiescence.judge pts3 fin with
+          -- marks: virtual time from the sleep ops; peer messages are all ops but the local ones
+          let local_ := ["do", "obs", "obscancel", "ping", "aping", "apcancel", "write", "cancel", "sleep", "tick", "close", "settle", "end"]
+          let (marks, _, _) := ((words inp).drop 5).foldl (fun (acc : List Spec.Quiescence.Mark × Nat × Nat) op =>
+            let (ms, now, lastPeer) := acc
+            let f := op.splitOn ":"
+            match f with
+            | ["sleep", d] => (ms ++ [.none], now + d.toNat?.getD 0, lastPeer)
+            | ["tick"] => (ms ++ [if now ≥ lastPeer + 300000 then .tickPastLifetime else .none], now, lastPeer)
+            | ["nblk", _, "0"] => (ms ++ [.lastBlock], now, now)
+            | _ => (ms ++ [.none], now, if local_.contains (f.headD "") then lastPeer else now)) ([], 0, 0)
+          match Spec.Quiescence.judge pts3 fin marks with
           | none => "ok"
           | some c => s!"violates {c}"
         | _, _ => "violates unparsable-observation"
